@@ -13,6 +13,7 @@ NOTES = {
  'C01': ('DESIGN.md 3/C01', 'real protocol + FSM, list transport; Tor-side reply model (vlib/ref_control.py); schedules: symbolic submission points/flags over 8 reply shapes, 2 (quick) / 3 (thorough) commands + depth-4 tuples; text: symbolic fragments <=3 chars and all 2xx/5xx codes; segmentation: 2-3 cut offsets concretised exhaustively then delivered through the real dataReceived'),
  'C02': ('DESIGN.md 3/C02', 'real protocol; events of 3 wire forms x subscribed/unsubscribed names before the in-flight reply / when idle; 3 listeners with symbolic behaviours incl. unsubscribing during delivery; SETEVENTS answered by the harness'),
  'C03': ('DESIGN.md 3/C03', 'real protocol, list transport; 8 pre-loss states built by a real session prefix, symbolic partial line / reason / post-loss commands / notification requests'),
+ 'C04': ('DESIGN.md 3/C04', 'real protocol from makeConnection on; open()/os.urandom stubbed; Tor played by a reference script answering what was actually written; method mask/order, cookie condition/length, provider kind, one server fault per run; COOKIEFILE escapes; unescape round-trip over a critical alphabet'),
  'C05': ('DESIGN.md 3/C05', 'struct shim; list transport; reply header fields / cut point / disconnect point symbolic; oracle = independent RFC 1928 reply-stream parser; exception escaping dataReceived is followed by connectionLost as in Twisted'),
  'C06': ('DESIGN.md 3/C06', 'struct replaced by a validated pure-Python shim; symbolic hostnames start with g and use contract stubs for ipaddress/inet_pton; oracle = independent RFC 1928 request decoder; IPv6 CONNECT truncation is a listed known finding'),
  'C12': ('DESIGN.md 3/C12', 'list-recording transport double; oracle = reference decoder of tor kvline grammar; values <=3 (quick) / <=4 (thorough) chars over printable ASCII+TAB/CR/LF, 1-2 pairs'),
